@@ -1005,6 +1005,9 @@ def simp_cmp_int(expr_simp, expr):
         expr = expr_simp(
             ExprOp(TOK_EQUAL, src, new_int)
         )
+        if not expr.is_op(TOK_EQUAL):
+            # The comparison has been resolved
+            return expr
     elif not expr.is_op(TOK_EQUAL):
         return expr
     assert len(expr.args) == 2
